@@ -103,7 +103,7 @@ def outcome_of(ex, tr, rt):
     return ['status', ex.status]
 
 
-def evaluate(cfg, requests=('hit', 'hit2', 'hit-slashes', 'hit-absent', 'hit-absent', 'hit-long', '404', '405'), want=('C01', 'C02', 'C03', 'C04'), stats=None,
+def evaluate(cfg, requests=('hit', 'hit2', 'hit-slashes', 'hit-absent', 'hit-absent', 'hit-long', 'mistyped', '404', '405'), want=('C01', 'C02', 'C03', 'C04'), stats=None,
              shape_only=False, traces=None):
     """-> (findings, info).  info: {'model': summary, 'constructed': bool, 'exchanges': n, ...}"""
     findings = []
@@ -162,6 +162,9 @@ def evaluate(cfg, requests=('hit', 'hit2', 'hit-slashes', 'hit-absent', 'hit-abs
             if (kind == 'hit-absent' and last_op not in ('?', '*')) or (kind == 'hit-long' and last_op not in ('*', '+')):
                 return
             vals = {b: ('v%d_%s' % (tok_n[0], b)) for b in all_b}
+            last_type = cfg['route'].get('last_type') if cfg['route']['bindings'] else None
+            if last_type and not last_op:
+                vals[cfg['route']['bindings'][-1]] = str(1000 + tok_n[0])
             if last_op:
                 # the last binding of the route takes zero-or-one / several segments
                 last = cfg['route']['bindings'][-1]
@@ -170,16 +173,35 @@ def evaluate(cfg, requests=('hit', 'hit2', 'hit-slashes', 'hit-absent', 'hit-abs
                 elif last_op in ('*', '+'):
                     n_seg = 70 if kind == 'hit-long' else 2
                     vals[last] = ['v%d_%s_%d' % (tok_n[0], last, i) for i in range(n_seg)]
+                    if last_type:
+                        vals[last] = [str(tok_n[0] * 100 + i) for i in range(n_seg)]
+                elif last_type and kind != 'hit-absent':
+                    vals[last] = str(1000 + tok_n[0])
             path, method, view = spies.request_path(cfg, vals, '//' if kind == 'hit-slashes' else '/'), 'GET', route_view
+            conv = (lambda v: v)
+            if last_type:
+                last = cfg['route']['bindings'][-1]
+                vals = dict(vals)
+                vals[last] = [int(x) for x in vals[last]] if isinstance(vals[last], list) else (int(vals[last]) if vals[last] is not None else None)
             urlv = {b: ['value', v] for b, v in vals.items()}
             route_sym = ['route', n_decoys]
         elif kind == '404':
             path, method, view, urlv = '/nowhere/at/all', 'GET', null_view, {}
             route_sym = ['route', 'null']
+        elif kind == 'mistyped':
+            # a segment that is not a literal of the binding's type: the route does not match, the catch-all answers
+            if not (cfg['route']['bindings'] and cfg['route'].get('last_type')) or cfg['route'].get('decoys') or cfg['route'].get('siblings'):
+                return
+            vals = {b: 'v_' + b for b in all_b}
+            vals[cfg['route']['bindings'][-1]] = 'x1.5y' if cfg['route'].get('last_op') not in ('*', '+') else ['7', 'x1.5y', '9']
+            path, method, view, urlv = spies.request_path(cfg, vals), 'GET', null_view, {}
+            route_sym = ['route', 'null']
         else:
             if not cfg['route'].get('methods'):
                 return
             vals = {b: 'w_' + b for b in all_b}
+            if cfg['route']['bindings'] and cfg['route'].get('last_type'):
+                vals[cfg['route']['bindings'][-1]] = '405'
             path, method, view, urlv = spies.request_path(cfg, vals), 'POST', null_view, {}
             route_sym = ['route', 'null']
         env = probe.make_environ(method, path)
